@@ -64,7 +64,7 @@ theorem updateState_nonlast {s s' : St} {m : UpdMsg} {r : Rollapp} {q : Seq} (hr
     (hq : getSeq s m.sender = some q) (hl : m.last = false) (e : updateState s m = .ok s') :
     getRa s' m.ra = some { r with states := r.states ++ [newSInfo s m (NextP.addr m.sender)],
                                   evH := nextSlashHeight s.p.lsBlocks s.p.lsInterval s.h s.h, cdStart := s.h } ∧
-    getSeq s' m.sender = some { q with dishonor := q.dishonor - min s.p.dishonorSU q.dishonor } ∧
+    getSeq s' m.sender = some { q with dishonor := q.dishonor - min s.sqp.dishonorSU q.dishonor } ∧
     (nextSlashHeight s.p.lsBlocks s.p.lsInterval s.h s.h, m.ra) ∈ s'.lev := by
   have hsucc : updSucc r m = NextP.addr m.sender := by unfold updSucc; rw [hl]; rfl
   have hb : (NextP.addr m.sender != NextP.addr m.sender) = false := by simp
@@ -107,9 +107,9 @@ theorem updateState_nonlast {s s' : St} {m : UpdMsg} {r : Rollapp} {q : Seq} (hr
                     injection hg4' with hg4'; subst hg4'
                     have sp := indicateLiveness_spec hg4
                     refine ⟨sp.1, ?_, sp.2⟩
-                    show getSeq (setSeq (setRa s _) { q with dishonor := q.dishonor - min s.p.dishonorSU q.dishonor }) m.sender = _
+                    show getSeq (setSeq (setRa s _) { q with dishonor := q.dishonor - min s.sqp.dishonorSU q.dishonor }) m.sender = _
                     rw [← getSeq_addr hq]
-                    exact getSeq_setSeq_same (q := { q with dishonor := q.dishonor - min s.p.dishonorSU q.dishonor }) (q0 := q)
+                    exact getSeq_setSeq_same (q := { q with dishonor := q.dishonor - min s.sqp.dishonorSU q.dishonor }) (q0 := q)
                       (by show getSeq (setRa s _) q.addr = some q; rw [getSeq_addr hq]; exact hq)
 
 /-- for `LivenessSlashBlocks ≥ 1` the first event is exactly `LivenessSlashBlocks` after the update … -/
